@@ -35,6 +35,11 @@ def check(run, prog, tier):
     from . import memorule
     memorule.check(run, prog, "C11-H", ['quantarhei.qm.hilbertspace.dmoment.TransitionDipoleMoment', 'quantarhei.spectroscopy.abscalculator.AbsSpectrumCalculator'],
                    "the exciton lines then carry |d|^2 of another representation")
+    run.rule("C11-I", "exciton line widths weight the site widths with the coefficients of the sites in that exciton (rule of "
+                      "C12-I): otherwise the spectrum depends on how the molecules are numbered", minimum=2)
+    from . import c12
+    c12.rule_I(run, prog, "C11-I", "exciton a then gets the participation numbers of site a, and the spectrum changes when the "
+                                   "molecules are relabelled")
     run.rule("C11-A", "eigenbasis transformations in the aggregate calculation are undone", minimum=4)
     run.rule("C11-B", "half-sided transform is laid on the returned grid", minimum=10)
     run.rule("C11-C", "dipoles enter through scalar products only", minimum=3)
